@@ -4,6 +4,7 @@ import (
 	"github.com/kercylan98/minotaur/engine/prc"
 	"github.com/kercylan98/minotaur/engine/vivid/dispatcher"
 	"github.com/kercylan98/minotaur/toolkit/queues"
+	"github.com/kercylan98/minotaur/toolkit/verifhook"
 	"github.com/puzpuzpuz/xsync/v3"
 	"sync/atomic"
 	"unsafe"
@@ -34,27 +35,34 @@ type GlobalOrderedLockFree struct {
 
 func (m *GlobalOrderedLockFree) Suspend() {
 	xsync.NewCounter()
+	verifhook.At("mb.susp")
 	atomic.StoreUint32(&m.suspended, 1)
 }
 
 func (m *GlobalOrderedLockFree) Resume() {
+	verifhook.At("mb.res")
 	atomic.StoreUint32(&m.suspended, 0)
 	m.dispatch()
 }
 
 func (m *GlobalOrderedLockFree) DeliveryUserMessage(message prc.Message) {
+	verifhook.At("mb.upush")
 	m.queue.Push(unsafe.Pointer(&message))
+	verifhook.At("mb.uinc")
 	atomic.AddInt32(&m.userNum, 1)
 	m.dispatch()
 }
 
 func (m *GlobalOrderedLockFree) DeliverySystemMessage(message prc.Message) {
+	verifhook.At("mb.spush")
 	m.systemQueue.Push(unsafe.Pointer(&message))
+	verifhook.At("mb.sinc")
 	atomic.AddInt32(&m.sysNum, 1)
 	m.dispatch()
 }
 
 func (m *GlobalOrderedLockFree) dispatch() {
+	verifhook.At("mb.cas")
 	if atomic.CompareAndSwapUint32(&m.status, mailboxStatusIdle, mailboxStatusRunning) {
 		m.dispatcher.Dispatch(m.process)
 	}
@@ -63,7 +71,9 @@ func (m *GlobalOrderedLockFree) dispatch() {
 func (m *GlobalOrderedLockFree) process() {
 	for {
 		m.processHandle()
+		verifhook.At("mb.idle")
 		atomic.StoreUint32(&m.status, mailboxStatusIdle)
+		verifhook.At("mb.recheck")
 		notEmpty := atomic.LoadInt32(&m.sysNum) > 0 || (atomic.LoadUint32(&m.suspended) == 0 && atomic.LoadInt32(&m.userNum) > 0)
 		if !notEmpty {
 			break
@@ -82,19 +92,24 @@ func (m *GlobalOrderedLockFree) processHandle() {
 
 	var msg prc.Message
 	for {
+		verifhook.At("mb.spop")
 		if ptr := m.systemQueue.Pop(); ptr != nil {
 			msg = *(*prc.Message)(ptr)
+			verifhook.At("mb.sdec")
 			atomic.AddInt32(&m.sysNum, -1)
 			m.recipient.ProcessSystemMessage(msg)
 			continue
 		}
 
+		verifhook.At("mb.chksusp")
 		if atomic.LoadUint32(&m.suspended) == 1 {
 			return
 		}
 
+		verifhook.At("mb.upop")
 		if ptr := m.queue.Pop(); ptr != nil {
 			msg = *(*prc.Message)(ptr)
+			verifhook.At("mb.udec")
 			atomic.AddInt32(&m.userNum, -1)
 			m.recipient.ProcessUserMessage(msg)
 			continue
